@@ -1093,6 +1093,9 @@ class Structure(UniqueMixin, metaclass=StructMeta):
             # cooperative call that lets FastSerializable.__init__ install the class's serializer
             self.__dict__["_instantiated"] = True
             self.__dict__["_none_fields"] = set()
+            # the Constant attributes are part of every instance (they are not supplied: cls(k=...) is refused)
+            for field_name, const_val in getattr(self, "_constants", {}).items():
+                self.__dict__[field_name] = const_val
             for key, value in kwargs.items():
                 if (
                         TypedPyDefaults.safe_trusted_instantiation
